@@ -289,6 +289,16 @@ structure UpdateW where
 def UpdateW.render (u : UpdateW) : List Tok :=
   k tkUpdate :: renderName u.ks u.table (idt u.setKw :: u.ops.renderElems (k tkWhere :: renderRels u.rels u.tail))
 
+/-- `DELETE FROM [ks.]table WHERE rel AND … <tail>` (a whole-row delete: no selectors) -/
+structure DeleteW where
+  ks : Option Ident
+  table : Ident
+  rels : List Rel
+  tail : List Tok
+
+def DeleteW.render (d : DeleteW) : List Tok :=
+  k tkDelete :: k tkFrom :: renderName d.ks d.table (k tkWhere :: renderRels d.rels d.tail)
+
 /-- the lexer `L` yields the tokens `ts` from position `p` on, one position per token -/
 def At (L : Lexer) : Nat → List Tok → Prop
   | _, [] => True
